@@ -397,6 +397,12 @@ func (s *stream) closeAllStreams() {
 				}
 			}
 		}
+
+		// The stream end of the last vBucket arrives on another goroutine: wait until it has taken its token
+		// back before leaving the mode, otherwise the token stays in the queue and the next close blocks forever.
+		s.streamEndNotSupportedData.queue <- struct{}{}
+		<-s.streamEndNotSupportedData.queue
+
 		s.streamEndNotSupportedData.ending = false
 	} else {
 		var wg sync.WaitGroup
